@@ -90,8 +90,7 @@ def replay(ck, data):
   if 'src' not in case:
     print('replay needs the source text of the design'); return 1
   d = {'src': case['src'], 'label': case.get('label', 'replay'), 'cycles': case.get('cycles'), 'features': []}
-  if d['cycles'] is None: d.pop('cycles')
-  if case.get('sim_src'): d['sim_src'] = case['sim_src']
+  if d['cycles'] is None: d.pop('cycles')      # (a 'sim_src' entry of older replay files is ignored: the design is simulated as written)
   stats = {}
   be = case.get('backend', BE)
   jobs = U.run_batch(ck, be, [d], stats, 6, 8, keep=True)
